@@ -72,6 +72,9 @@ def spend_cases(draw):
     if not consistent(flags):
         flags = STD
         fclass = 'standard'
+    if draw(st.integers(0, 7)) == 0:
+        flags |= F['SIGPUSHONLY']         # not part of the standard set; only ever restricts (scriptSigs with operations)
+        fclass += '+SIGPUSHONLY'
     sel = 'auto'
     if draw(st.integers(0, 5)) == 0:
         sel = draw(st.sampled_from(['explicit-right', 'explicit-right', 'explicit-wrong', 'explicit-decoy', 'out-of-range']))
@@ -228,7 +231,7 @@ def classify(case, c, r, ref_err, tv, idx):
     # only where the session layout is derived from the shape of the transactions: outputs that are (or P2SH-wrap) a witness program.
     # A plain legacy P2SH spend honours a removed P2SH flag on the unchanged tree and stays fully checked.
     out_ = c['fund'].vout[tx.vin[idx]['n']]
-    if case['fclass'] == 'activation-removed' and ref_err is None and tv is not None and (is_witness_out(out_['spk'], tx.vin[idx]['script']) or tx.vin[idx]['wit']):
+    if case['fclass'].startswith('activation-removed') and ref_err is None and tv is not None and (is_witness_out(out_['spk'], tx.vin[idx]['script']) or tx.vin[idx]['wit']):
         return 'C03-activation-flags'
     if c['meta'].get('leafkind') == 'unknown-leaf-version' and ref_err is None and tv and tv.startswith('refused'):
         return 'C03-unknown-leaf-version'
